@@ -29,5 +29,16 @@ func main() {
 		insts, err := p.Assemble()
 		fmt.Printf("assemble %d instructions=%d %s\n", i, len(insts), class(err))
 	}
-	fmt.Printf("supported %v\n", seccomp.Supported())
+	// names other than "" must resolve the same way on every target (the answer is a function of the name)
+	for _, n := range []string{"x86_64", "amd64", "AMD64", "i386", "386", "arm", "ARM", "arm64", "aarch64", "AArch64", "x32", "X32", "ppc64", "mips", "s390x", "riscv64", "wasm", "bogus"} {
+		info, err := arch.GetInfo(n)
+		if err != nil {
+			fmt.Printf("alias %s error\n", n)
+		} else {
+			fmt.Printf("alias %s ok:%s:%d:%d\n", n, info.Name, len(info.SyscallNames), len(info.SyscallNumbers))
+		}
+	}
+	if runtime.GOOS != "linux" {
+		fmt.Printf("supported %v\n", seccomp.Supported())
+	}
 }
